@@ -10,6 +10,7 @@ import (
 	"github.com/modernizing/coca/pkg/domain/core_domain"
 	"github.com/spf13/cobra"
 	"log"
+	"math"
 	"strconv"
 )
 
@@ -42,11 +43,23 @@ var evaluateCmd = &cobra.Command{
 
 		result := analyser.Analysis(parsedDeps, identifiers)
 
-		cModel, _ := json.MarshalIndent(result, "", "\t")
+		cModel, _ := json.MarshalIndent(jsonSafe(result), "", "\t")
 		cmd_util.WriteToCocaFile("evaluate.json", string(cModel))
 
 		buildOutput(result)
 	},
+}
+
+// jsonSafe: encoding/json refuses NaN, which is what a deviation over fewer than two samples is; without
+// this the marshalling error was dropped and evaluate.json was written empty
+func jsonSafe(result evaluator.EvaluateModel) evaluator.EvaluateModel {
+	if math.IsNaN(result.Summary.MethodLengthStdDeviation) {
+		result.Summary.MethodLengthStdDeviation = 0
+	}
+	if math.IsNaN(result.Summary.MethodNumStdDeviation) {
+		result.Summary.MethodNumStdDeviation = 0
+	}
+	return result
 }
 
 func buildOutput(result evaluator.EvaluateModel) {
